@@ -15,7 +15,7 @@ CONFIG = dict(
              "Tie: real wallet.SignTransaction on real deterministic, bip44, collection and xpub wallets (plain and encrypted) x "
              "ownership patterns x index selections x partially pre-signed transactions; each resulting signature is classified "
              "null / kept byte-identical / new-and-verifies (cipher.VerifyAddressSignedHash) and compared with the model; the driver "
-             "also evaluates the property directly on the implementation's answer. Visor.WalletSignTransaction is driven on a real visor + wallet service (partially signed transactions over real unspents, index lists naming already-signed inputs, resubmission of a request on its result must be refused: theorem resubmit_refused). wallets LOCKED, extended by further addresses while locked and unlocked only for the call (wallet.GuardView) sign for those addresses too, owners and keys taken from the never-locked twin. wallet.CreateTransactionSigned is driven over "
+             "also evaluates the property directly on the implementation's answer. Visor.WalletSignTransaction is driven on a real visor + wallet service (partially signed transactions over real unspents, index lists naming already-signed inputs, resubmission of a request on its result must be refused: theorem resubmit_refused). wallets LOCKED, extended by further addresses while locked and unlocked only for the call (wallet.GuardView) sign for those addresses too, owners and keys taken from the never-locked twin. created_never_panics: the signing loop of CreateTransactionSigned signs or returns an error (watch-only xpub wallets, whose entries have no secret key, are refused - they panicked before repair 509cd7e80); wallet.CreateTransactionSigned is driven over "
              "multi-address wallets with interleaved ownership orders (A,B,A ...) and every input signature is verified against its owner.",
         note="Signatures are random-nonce ECDSA: compared by verification, not byte-for-byte. Precondition of the theorems' panic-"
              "freedom: |sigs| = |inputs| (a transaction that passed Verify, as Visor.WalletSignTransaction guarantees); outside it the "
